@@ -595,9 +595,9 @@ class Check(common.Check):
         'explicit_sustain_wins', 'amp_db_over_velocity', 'amp_from_velocity', 'midinote_note_over_degree',
         'midinote_degree_over_freq', 'freq_from_degree', 'freq_default', 'chain_degree_to_midinote',
         'chain_degree_to_freq', 'player_plays_timetable', 'player_time_prefix_sums',
-        'ppar_preserves_child_timelines', 'pdur_total', 'pdur_passes_prefix')]
-    N_QUICK = 400
-    N_THOROUGH = 8000
+        'ppar_preserves_child_timelines', 'pdur_total', 'pdur_passes_prefix', 'player_ids_fresh')]
+    N_QUICK = 2000
+    N_THOROUGH = 40000
     ASSUMPTIONS = [
         'NRT mode, tempo 1, one player per case; logical time and bundle stamping (time + latency) are '
         'taken from the score main.process() renders (C05/C07 cover them)',
